@@ -1,6 +1,7 @@
 package main
 
 import (
+	"encoding/json"
 	"flag"
 	"fmt"
 	"os"
@@ -47,6 +48,8 @@ func runCmd(args []string) {
 	fallback := fs.String("fallback", "z3-new,cvc5-int", "fallback solvers (fresh, stateless), comma separated")
 	guide := fs.Bool("guide", true, "model-guided branching")
 	paramStr := fs.String("p", "", "harness parameters k=v,k=v")
+	cexFile := fs.String("cex", "", "replay only the path of this counterexample file (symbolically)")
+	traceFn := fs.String("tracefn", "", "trace only instructions of functions whose name contains this")
 	fs.Parse(args)
 	t0 := time.Now()
 	p, err := sym.Load(*repo, *hroot, *arch)
@@ -70,6 +73,23 @@ func runCmd(args []string) {
 				cfg.Params[kv[:i]] = v
 			}
 		}
+		if *cexFile != "" {
+			b, _ := os.ReadFile(*cexFile)
+			var c struct {
+				Decisions []int
+				Params    map[string]int
+				Model     map[string]uint64
+			}
+			json.Unmarshal(b, &c)
+			cfg.DebugModel = c.Model
+			cfg.OnlyPrefix = c.Decisions
+			cfg.Workers = 1
+			for k, v := range c.Params {
+				cfg.Params[k] = v
+			}
+			cfg.NoSnapshot = true
+		}
+		cfg.TraceFn = *traceFn
 		ex := sym.NewExplorer(p, fn, cfg)
 		t1 := time.Now()
 		ex.Run()
